@@ -275,6 +275,20 @@ def main_():  # noqa
                             overdue.append((ph['variant'], lb))
                     except (OSError, ValueError):
                         pass
+                elif rc == 75:
+                    # the worker asked to be replaced (its memory had grown): continue at the index it names
+                    nxt = None
+                    try:
+                        for line in open(w['out'], errors='replace'):
+                            if line.startswith('C '):
+                                nxt = int(line.split()[1])
+                    except (OSError, ValueError):
+                        pass
+                    agg['counters']['workers_recycled_for_memory'] = agg['counters'].get('workers_recycled_for_memory', 0) + 1
+                    if nxt is not None and time.time() - tph < ph['budget']:
+                        nw = start(w['i'], nxt)
+                        nw['restarts'] = w['restarts']
+                        pending.append(nw)
                 elif rc != 0:
                     # the worker died: find the seed it was on, record a crash, restart after it
                     last_b = None
